@@ -627,20 +627,21 @@ Fixpoint data_sweep (solve : nat -> tensor F -> list (tensor F) -> tensor F) (X 
   | [] => (fs, M)
   | m :: ms' => let Mt := mttkrp_data X R w fs m in data_sweep solve X R w ms' (set_nth m (solve m Mt fs) fs) (Some Mt)
   end.
-(* one iteration of parafac without mask / sparsity / line search: the sweep, then error_calc(tensor, norm, weights, factors, None, None, mttkrp) *)
+(* one iteration of parafac without mask / line search: the sweep, then error_calc(tensor, norm, weights, factors, sparsity, None, mttkrp);
+   card = None for a falsy sparsity (MTTKRP shortcut), Some c: explicit residual minus the c-sparse component *)
 Definition parafac_iteration_error (solve : nat -> tensor F -> list (tensor F) -> tensor F) (X : tensor F) (R : nat) (w : option (list F))
-           (ms : list nat) (fs : list (tensor F)) : F * F :=
-  let r := data_sweep solve X R w ms fs None in error_calc_model Op X R w (fst r) None None (snd r).
+           (card : option nat) (ms : list nat) (fs : list (tensor F)) : F * F :=
+  let r := data_sweep solve X R w ms fs None in error_calc_model Op X R w (fst r) card None (snd r).
 End DataSweep.
-(* n_iter_max iterations of that loop on data (no normalisation / mask / sparsity / line search): the factors and the list of values *)
+(* n_iter_max iterations of that loop on data (no normalisation / mask / line search): the factors and the list of values *)
 Section DataLoop.
 Context {F : Type} (Op : fops F).
-Variables (solve : nat -> nat -> tensor F -> list (tensor F) -> tensor F) (X : tensor F) (R : nat) (w : option (list F)) (ms : list nat).
+Variables (solve : nat -> nat -> tensor F -> list (tensor F) -> tensor F) (X : tensor F) (R : nat) (w : option (list F)) (card : option nat) (ms : list nat).
 Fixpoint parafac_data_loop (n it : nat) (fs : list (tensor F)) (errs : list (F * F)) : list (tensor F) * list (F * F) :=
   match n with
   | 0 => (fs, errs)
   | S n' => let r := data_sweep Op (solve it) X R w ms fs None in
-            parafac_data_loop n' (S it) (fst r) (errs ++ [error_calc_model Op X R w (fst r) None None (snd r)])
+            parafac_data_loop n' (S it) (fst r) (errs ++ [error_calc_model Op X R w (fst r) card None (snd r)])
   end.
 (* the factors at the end of each iteration *)
 Fixpoint parafac_data_states (n it : nat) (fs : list (tensor F)) : list (list (tensor F)) :=
